@@ -182,6 +182,7 @@ func (m *Machine) ActSaveRetention(t *rapid.T) {
 				}
 				if def.RetentionCount == 0 && def.RetentionPeriod == 0 {
 					m.fail("C12", "a save removed job %s of pipeline %s which has no retention settings", label(j.ID), p)
+					m.fail("C15", "job %s of pipeline %s, which has no retention settings, is no longer reported after a save", label(j.ID), p)
 				}
 			} else {
 				kept++
@@ -212,6 +213,7 @@ func (m *Machine) ActSaveRetention(t *rapid.T) {
 				if j.Terminal && j.Created.After(k.Created) {
 					if _, still := s1.Jobs[j.ID]; !still {
 						m.fail("C12", "a save kept the finished job %s of pipeline %s but removed the newer finished job %s", label(k.ID), p, label(j.ID))
+						m.fail("C15", "job %s of pipeline %s is no longer reported after a save although retention keeps the older finished job %s (retention removes the oldest first)", label(j.ID), p, label(k.ID))
 					}
 				}
 			}
